@@ -375,7 +375,7 @@ fn run_c11(ctx: &mut Ctx) {
                 judge(ctx, &Case::new("fromuint").with("ty", ty).with("x", UInt::U8(x as u8).enc()).with("ref", by_ref as u8), "W1-all-u8");
             }
         }
-        let step = tier.pick(257, 7, 1);
+        let step = tier.pick(257, 1, 1);
         let mut x = 0u128;
         while x <= 65535 {
             judge(ctx, &Case::new("fromuint").with("ty", ty).with("x", UInt::U16(x as u16).enc()).with("ref", (x & 1) as u8), "W1-all-u16");
@@ -391,7 +391,7 @@ fn run_c11(ctx: &mut Ctx) {
         // slices of 0..=5 elements of every width
         for uty in ALL_UTY {
             for count in 0..=5usize {
-                for rep in 0..tier.pick(1, 3, 12) {
+                for rep in 0..tier.pick(1, 8, 40) {
                     let vals: Vec<u128> = (0..count)
                         .map(|i| match rep {
                             0 => (i as u128 + 1) & uty.max(),
@@ -406,7 +406,7 @@ fn run_c11(ctx: &mut Ctx) {
         }
     }
     // every vector of len <= k (all values) and lattice vectors into every uN, by reference and by value
-    let k = tier.pick(4, 9, 12);
+    let k = tier.pick(4, 11, 13);
     for ty in 0..NTYPES {
         let cap = TYPE_FIXED_CAP[ty].unwrap_or(usize::MAX);
         for n in 0..=k.min(cap) {
@@ -474,7 +474,7 @@ fn run_c12(ctx: &mut Ctx) {
             let lens: Vec<usize> = if tier == Tier::Tiny { gen::boundary_lens(wa, TYPE_WORD_BITS[tb], capa, limit) } else { (0..=limit).collect() };
             for n in lens {
                 let vals = if tier == Tier::Thorough { gen::lattice(n, wa, &mut rng) } else { gen::lattice_small(n, wa, &mut rng) };
-                let keep = tier.pick(2, 3, vals.len());
+                let keep = tier.pick(2, 8, vals.len());
                 for _ in 0..keep.min(vals.len()) {
                     let va = rng.pick(&vals).clone();
                     let a = Spec::new(ta, va, via_for(ta, &mut rng));
